@@ -1,11 +1,219 @@
 /-
-C03 — no operation mutates its arguments (partial). Placeholder, replaced below.
+C03 — no operation mutates its arguments (PARTIAL: the theorems cover the accumulating helpers
+modelled on the heap of `Model/Heap.lean`; the ~80 public entry points are covered by the
+fingerprint correspondence of `harness/c03.py`).
+
+Shape of every frame theorem:
+    pattern.targetsFresh → ∀ heap args, every location that existed at entry — in particular every
+    location reachable from the arguments — holds the same object when the call returns OR raises.
+`pattern_<fn>` is regenerated from the source's AST each run (`Generated/Accum.lean`) and
+`pattern_<fn>.targetsFresh = true` is discharged by `decide`: a changed initialiser
+(`total = values[0]`, a subscript store or `.update` through a parameter, `v *= rate` on a loop
+variable over a parameter) flips it and this file stops building.
+Helper lemmas: `Lemmas/Heap.lean`.
 -/
 import Bermuda.Model.Heap
+import Bermuda.Lemmas.Heap
 import Bermuda.Generated.Accum
 namespace Bermuda.Properties.C03
 open Bermuda.Heap
 
-theorem pattern__conforming_sum_fresh : Generated.Accum.pattern__conforming_sum.targetsFresh = true := by decide
+/-! ### 1. frame theorems, parameterised by the accumulator pattern -/
+
+/-- `_conforming_sum`: the accumulator starts as a fresh scalar, so the first `+=` rebinds it to a
+new object and every later `+=` writes into that new object only -/
+theorem frame__conforming_sum (p : Pattern) (hp : p.targetsFresh = true) (h : Heap) (values : List Ref) :
+    Preserves h.size h (conformingSum p h values).1 := by
+  unfold conformingSum
+  obtain ⟨p0, f0, s0⟩ := initAccumulator_frame (n := h.size) rfl (initOf_fresh hp "total") values
+  exact p0.trans (sumLoop_frame values s0 f0)
+
+/-- `_conforming_weighted_average` -/
+theorem frame__conforming_weighted_average (p : Pattern) (hp : p.targetsFresh = true) (h : Heap)
+    (values : List Ref) (weights : List Rat) :
+    Preserves h.size h (conformingWeightedAverage p h values weights).1 := by
+  unfold conformingWeightedAverage
+  have hi := initAccumulator_frame (n := h.size) rfl (initOf_fresh hp "total") values
+  generalize initAccumulator (p.initOf "total") h values = init at hi ⊢
+  obtain ⟨h0, t0⟩ := init
+  obtain ⟨p0, f0, s0⟩ := hi
+  simp only at p0 f0 s0 ⊢
+  have p1 := p0.trans (wavgLoop_frame (values.zip weights) s0 f0)
+  generalize wavgLoop h0 t0 (values.zip weights) = w at p1 ⊢
+  obtain ⟨h1, r⟩ := w
+  cases r with
+  | error e => exact p1
+  | ok t =>
+    simp only
+    split
+    · exact p1
+    · split
+      · rename_i h2 r hb
+        exact p1.trans (binop_frame p1.1 hb).1
+      · exact p1
+
+theorem combineEntries_frame {n : Nat} (f : Rat → Rat → Rat) (cur nxt : List (String × Ref))
+    (ks : List (String × Ref)) : ∀ {h : Heap}, n ≤ h.size → Preserves n h (combineEntries f h cur nxt ks).1 := by
+  induction ks with
+  | nil => intro h hn; exact Preserves.refl hn
+  | cons k rest ih =>
+    intro h hn
+    obtain ⟨k, v⟩ := k
+    simp only [combineEntries]
+    split
+    · split
+      · have := ih (h := h) hn
+        split <;> simp_all
+      · split
+        · exact Preserves.refl hn
+        · rename_i h1 r hb
+          have p1 := (binop_frame hn hb).1
+          have := p1.trans (ih (h := h1) p1.1)
+          split <;> simp_all
+    · exact Preserves.refl hn
+
+/-- `_values_add` / `_values_diff`: a comprehension building a new dict of new arrays (the
+`earned_premium` entry aliases the argument's array, which is not a write) -/
+theorem frame__values_combine (p : Pattern) (hp : p.targetsFresh = true) (f : Rat → Rat → Rat) (h : Heap)
+    (a b : Loc) : Preserves h.size h (valuesCombine p f h a b).1 := by
+  unfold valuesCombine
+  split
+  · split
+    · exact Preserves.refl (Nat.le_refl _)
+    · rename_i ea eb _ _ _
+      have pc := combineEntries_frame (n := h.size) f ea eb ea (h := h) (Nat.le_refl _)
+      split
+      · rename_i h1 e heq; rw [heq] at pc; exact pc
+      · rename_i h1 es heq
+        rw [heq] at pc
+        try rw [if_pos hp]
+        exact pc.trans (preserves_alloc pc.1 _)
+  · exact Preserves.refl (Nat.le_refl _)
+
+theorem frame__values_add (p : Pattern) (hp : p.targetsFresh = true) (h : Heap) (a b : Loc) :
+    Preserves h.size h (valuesAdd p h a b).1 := frame__values_combine p hp _ h a b
+
+theorem frame__values_diff (p : Pattern) (hp : p.targetsFresh = true) (h : Heap) (a b : Loc) :
+    Preserves h.size h (valuesDiff p h a b).1 := frame__values_combine p hp _ h a b
+
+/-- `_merge_cell_pair`: `{**cell1.values, **cell2.values}` is a new dict -/
+theorem frame__merge_cell_pair (p : Pattern) (hp : p.targetsFresh = true) (h : Heap) (a b : Ref) :
+    Preserves h.size h (mergeCellPair p h a b).1 := by
+  unfold mergeCellPair
+  split
+  · exact Preserves.refl (Nat.le_refl _)
+  · exact Preserves.refl (Nat.le_refl _)
+  · split
+    · try rw [if_pos hp]
+      exact preserves_alloc (Nat.le_refl _) _
+    · exact Preserves.refl (Nat.le_refl _)
+  · exact Preserves.refl (Nat.le_refl _)
+
+/-! ### 2. today's source has fresh targets everywhere (tables regenerated each run) -/
+
+theorem pattern__conforming_sum_fresh :
+    Generated.Accum.pattern__conforming_sum.targetsFresh = true := by decide
+theorem pattern__conforming_weighted_average_fresh :
+    Generated.Accum.pattern__conforming_weighted_average.targetsFresh = true := by decide
+theorem pattern__values_add_fresh : Generated.Accum.pattern__values_add.targetsFresh = true := by decide
+theorem pattern__values_diff_fresh : Generated.Accum.pattern__values_diff.targetsFresh = true := by decide
+theorem pattern__merge_cell_pair_fresh : Generated.Accum.pattern__merge_cell_pair.targetsFresh = true := by decide
+
+/-- every function of the anchor list was found, and every write target in every one of them is
+initialised by a literal, a fresh container, a copy or a computed value -/
+theorem all_patterns_fresh :
+    Generated.Accum.ok = true ∧ Generated.Accum.all.all Pattern.targetsFresh = true := by decide
+
+/-- the frame of the five helpers as the source stands -/
+theorem helpers_respect_frame (h : Heap) :
+    (∀ vs, Preserves h.size h (conformingSum Generated.Accum.pattern__conforming_sum h vs).1) ∧
+    (∀ vs ws, Preserves h.size h
+      (conformingWeightedAverage Generated.Accum.pattern__conforming_weighted_average h vs ws).1) ∧
+    (∀ a b, Preserves h.size h (valuesAdd Generated.Accum.pattern__values_add h a b).1) ∧
+    (∀ a b, Preserves h.size h (valuesDiff Generated.Accum.pattern__values_diff h a b).1) ∧
+    (∀ a b, Preserves h.size h (mergeCellPair Generated.Accum.pattern__merge_cell_pair h a b).1) :=
+  ⟨frame__conforming_sum _ pattern__conforming_sum_fresh h,
+   frame__conforming_weighted_average _ pattern__conforming_weighted_average_fresh h,
+   frame__values_add _ pattern__values_add_fresh h,
+   frame__values_diff _ pattern__values_diff_fresh h,
+   frame__merge_cell_pair _ pattern__merge_cell_pair_fresh h⟩
+
+/-! ### 3. position in a chain -/
+
+/-- a call as a heap transformer respects the frame when everything allocated before it is
+unchanged after it -/
+def Respects (c : Heap → Heap) : Prop := ∀ h, Preserves h.size h (c h)
+
+/-- a sequence of frame-respecting calls respects the frame of the ORIGINAL arguments: whatever
+position an operation has in a chain, the objects that existed before the chain are untouched -/
+theorem frame_chain (cs : List (Heap → Heap)) (hcs : ∀ c ∈ cs, Respects c) (h : Heap) :
+    Preserves h.size h (cs.foldl (fun acc c => c acc) h) := by
+  suffices ∀ (cs : List (Heap → Heap)), (∀ c ∈ cs, Respects c) → ∀ (g : Heap), Preserves h.size h g →
+      Preserves h.size h (cs.foldl (fun acc c => c acc) g) from this cs hcs h (Preserves.refl (Nat.le_refl _))
+  intro cs
+  induction cs with
+  | nil => intro _ g hg; exact hg
+  | cons c rest ih =>
+    intro hcs g hg
+    simp only [List.foldl_cons]
+    apply ih (fun c' hc' => hcs c' (List.mem_cons_of_mem _ hc'))
+    exact hg.trans ((hcs c (List.mem_cons_self ..) g).mono hg.1)
+
+/-- the reachable locations of an argument that lives in the heap existed at entry, so they are
+covered by `Preserves` -/
+theorem reach_head_lt {h : Heap} {l : Loc} {o : Obj} (hl : h.get l = some o) : l < h.size := by
+  simp only [Heap.get, Heap.size] at *
+  exact (List.getElem?_eq_some_iff.mp hl).1
+
+/-- the statement in terms of reachability: every location reachable from an argument that lives
+in the entry heap is unchanged after a frame-respecting call -/
+theorem frame_reachable {h h' : Heap} (hp : Preserves h.size h h') (arg : Ref)
+    (hwf : ∀ l ∈ reach h arg, l < h.size) : ∀ l ∈ reach h arg, h'.get l = h.get l :=
+  fun l hl => hp.2 l (hwf l hl)
+
+/-! ### 4. negative control: the theorem is not vacuous -/
+
+/-- the pattern `total = values[0]` (an initialiser reaching a parameter) -/
+def badSum : Pattern := ⟨"_conforming_sum", [⟨"total", "aug", [.param]⟩]⟩
+
+theorem badSum_not_fresh : badSum.targetsFresh = false := by decide
+
+/-- witness heap: two argument arrays `[1]`, `[2]` -/
+def witness : Heap := ⟨[.arr [1], .arr [2]]⟩
+
+/-- With `total = values[0]` the loop's `total += val` writes into the first ARGUMENT: location 0
+holds `[4]` afterwards. The frame is violated. -/
+theorem badSum_violates_frame :
+    ¬ Preserves witness.size witness (conformingSum badSum witness [.loc 0, .loc 1]).1 := by
+  intro hp
+  have h0 := hp.2 0 (by decide)
+  have : (conformingSum badSum witness [.loc 0, .loc 1]).1.get 0 ≠ witness.get 0 := by decide +kernel
+  exact this h0
+
+/-- and with today's pattern the same call leaves both arrays alone and returns a NEW array `[3]` -/
+example :
+    (conformingSum Generated.Accum.pattern__conforming_sum witness [.loc 0, .loc 1]).1.get 0 = some (.arr [1]) ∧
+    (conformingSum Generated.Accum.pattern__conforming_sum witness [.loc 0, .loc 1]).1.get 1 = some (.arr [2]) ∧
+    (match (conformingSum Generated.Accum.pattern__conforming_sum witness [.loc 0, .loc 1]).2 with
+      | .ok r => decide (r = .loc 2) | .error _ => false) = true ∧
+    (conformingSum Generated.Accum.pattern__conforming_sum witness [.loc 0, .loc 1]).1.get 2 = some (.arr [3]) := by
+  decide +kernel
+
+def witnessDicts : Heap := ⟨[.arr [1], .dict [("a", .loc 0)], .dict [("b", .loc 0)]]⟩
+
+/-- `update` through a parameter in `_merge_cell_pair` violates the frame as well -/
+example :
+    (mergeCellPair ⟨"_merge_cell_pair", [⟨"cell1", "method:update", [.param]⟩]⟩ witnessDicts (.loc 1) (.loc 2)).1.get 1
+      ≠ witnessDicts.get 1 := by
+  decide +kernel
+
+-- OPEN frame_reachable_entry_points
+--   the same frame statement for the remaining functions of the mechanism list
+--   (`summarize_cell_values`, `blend_cells`, `_overwrite_values`, `Cell.replace/select/derive_fields/
+--   add_statics`, `_thin_cell`, `_accident_quarter_to_policy_year_slice`, `long_data_frame_to_triangle`)
+--   and for the ~80 public entry points: their bodies are not modelled on the heap. Their
+--   accumulator patterns ARE regenerated and checked (`all_patterns_fresh`), and their behaviour is
+--   covered by the fingerprint correspondence (every registered operation × shape × chain position,
+--   plain and read-only runs).
 
 end Bermuda.Properties.C03
